@@ -83,6 +83,22 @@ func c15Run(c *vf.Case, msgs []wsMsg, events []wsEvent, k int, mut c15Mutant, wi
 	}
 	reported := false
 	var reportedErr error
+	queued := 0
+	afterArm := func() {}
+	if async && mut.framing && !preClosed && k == 0 && next == 0 && c.Rng.Chance(1, 6) {
+		// the read that will meet the violating frame is parked on the transport; then the transport stalls and the
+		// application queues hundreds of writes; then the frame arrives. The writes were accepted before the violation;
+		// the Close 1002 still follows them.
+		afterArm = func() {
+			t.Pump()
+			t.HoldWrites = true
+			queued = c.Rng.Range(129, 400)
+			for i := 0; i < queued; i++ {
+				s.AsyncWrite([]byte("queued before the violation"), websocket.TypeText, func(error) {})
+			}
+			c.Count("violations_read_with_hundreds_of_writes_queued", 1)
+		}
+	}
 	if frameAPI {
 		for i := 0; i <= k; i++ {
 			var err error
@@ -90,6 +106,9 @@ func c15Run(c *vf.Case, msgs []wsMsg, events []wsEvent, k int, mut c15Mutant, wi
 			if async {
 				calls := 0
 				s.AsyncNextFrame(func(e error, f websocket.Frame) { calls++; err = e; got = append(websocket.Frame(nil), f...) })
+				if i == k && calls == 0 {
+					afterArm()
+				}
 				wait(&calls)
 				if calls != 1 {
 					fail("callback-count", "callback for frame %d invoked %d times", i, calls)
@@ -134,6 +153,9 @@ func c15Run(c *vf.Case, msgs []wsMsg, events []wsEvent, k int, mut c15Mutant, wi
 			if async {
 				calls := 0
 				s.AsyncNextMessage(buf, func(e error, nn int, _ websocket.MessageType) { calls++; err, n = e, nn })
+				if i == done && calls == 0 {
+					afterArm()
+				}
 				wait(&calls)
 				if calls != 1 {
 					fail("callback-count", "callback for message %d invoked %d times", i, calls)
@@ -223,12 +245,31 @@ func c15Run(c *vf.Case, msgs []wsMsg, events []wsEvent, k int, mut c15Mutant, wi
 		return
 	}
 	before := len(t.Written)
-	werr := s.Write([]byte("after"), websocket.TypeText)
+	var werr error
+	if queued > 0 {
+		wcalls := 0
+		s.AsyncWrite([]byte("after"), websocket.TypeText, func(e error) { wcalls++; werr = e })
+		t.ReleaseWrites()
+		for i := 0; i < 4*queued+100 && t.Pump() > 0; i++ {
+		}
+		if wcalls == 0 {
+			werr = nil
+		}
+	} else {
+		werr = s.Write([]byte("after"), websocket.TypeText)
+	}
 	if werr == nil {
 		fail("write-accepted-after-framing-violation", "Write after the violation returned nil")
 		return
 	}
-	_ = s.Flush()
+	if queued == 0 {
+		_ = s.Flush()
+	} else {
+		calls := 0
+		s.AsyncFlush(func(error) { calls++ })
+		for i := 0; i < 4*queued+100 && t.Pump() > 0; i++ {
+		}
+	}
 	t.Pump()
 	frames, rest, st := wsref.ParseAll(t.Written, -1)
 	if st != wsref.OK || len(rest) != 0 {
@@ -245,6 +286,9 @@ func c15Run(c *vf.Case, msgs []wsMsg, events []wsEvent, k int, mut c15Mutant, wi
 				return
 			}
 		case wsref.OpText, wsref.OpBinary, wsref.OpCont:
+			if queued > 0 && string(f.Payload) == "queued before the violation" {
+				continue // accepted before the violation
+			}
 			fail("application-frame-written-after-framing-violation", "a data frame reached the wire after the violation (wire grew from %d to %d bytes)", before, len(t.Written))
 			return
 		}
